@@ -12,7 +12,7 @@
 import NmfuProps.C05
 namespace Nmfu
 
-theorem C20_same_behaviour (A B : Machine) (o : SemOpts) (V : List (PS AEv Quest))
+theorem C20_same_behaviour (A B : Machine) (o : SemOpts) (V : List (PS Nat Nat AEv Quest))
     (h : certOK (A.sm o) (B.sm o) nSym V = true) (ω : Oracle AEv Quest) (w : List Nat)
     (hw : ∀ x ∈ w, x < nSym) :
     Comparable ((A.sm o).events ω w) ((B.sm o).events ω w) ∧
